@@ -57,6 +57,7 @@ def OSet.owner (o : OSet) : Owner :=
 inductive SetEvent where
   | finalizerPatch (name : String) (add : Bool) (res : Option ApiErr)
   | statusUpdate (name : String) (res : Option ApiErr) (revision : Nat) (conds : List Cond) (controllerOf : List CRef)
+      (remotePhases : List (String × String))
   deriving Repr, Inhabited
 
 /-- Third-party operations on an ObjectSet (users, the ObjectDeployment controller, the API's
@@ -78,6 +79,9 @@ structure Sys where
   -- GHOST (C10, see `World.tick`): the ObjectSets after each of PKO's writes on them, stamped with
   -- the number of write requests issued so far.  Never read by the model.
   trail : List (Nat × (String → Option OSet)) := []
+  -- The (Cluster)ObjectSlice objects in the API: name ↦ objects.  Read only by `Pko.Model.Slices`
+  -- (ObjectSets whose phases reference slices); empty in every other history.
+  slices : List (String × List PObj) := []
 
 /-- GHOST: remember the ObjectSets as they are after a PKO write. -/
 def Sys.note (s : Sys) : Sys := { s with trail := s.trail ++ [(s.w.gw, s.sets)] }
@@ -169,7 +173,7 @@ def Sys.setFinalizer (s : Sys) (mem : OSet) (present : Bool) : Sys × Except Api
 def Sys.updateStatus (s : Sys) (mem : OSet) : Sys × Except ApiErr OSet :=
   let (s', r) := s.lockedWrite mem fun cur =>
     { cur with revision := mem.revision, conds := mem.conds, controllerOf := mem.controllerOf, remotePhases := mem.remotePhases }
-  let ev res := SetEvent.statusUpdate mem.name res mem.revision mem.conds mem.controllerOf
+  let ev res := SetEvent.statusUpdate mem.name res mem.revision mem.conds mem.controllerOf mem.remotePhases
   match r with
   | .ok stored => ({ s' with setEvents := s'.setEvents ++ [ev none] }, .ok { mem with rv := stored.rv })
   | .error e => ({ s' with setEvents := s'.setEvents ++ [ev (some e)] }, .error e)
